@@ -229,6 +229,9 @@ func (in *interp) zero(t types.Type) value {
 	case *types.Pointer:
 		return (*value)(nil)
 	case *types.Array:
+		if t.Len() > 4096 { // large arrays are materialised lazily by indexAddr
+			return array(in.bigSlice(int(t.Len())))
+		}
 		a := make(array, t.Len())
 		for i := range a {
 			a[i] = in.zero(t.Elem())
@@ -574,11 +577,11 @@ func (in *interp) mapInsert(m *omap, k, v value) {
 	}
 	i := in.mapFind(m, k)
 	if i >= 0 {
-		m.vals[i] = v
+		m.vals[i] = copyVal(v)
 		return
 	}
-	m.keys = append(m.keys, k)
-	m.vals = append(m.vals, v)
+	m.keys = append(m.keys, copyVal(k))
+	m.vals = append(m.vals, copyVal(v))
 }
 
 func (in *interp) mapDelete(m *omap, k value) {
@@ -622,4 +625,26 @@ func (it *stringIter) next() tuple {
 	}
 	it.i += n
 	return okv
+}
+
+// copyVal returns a copy of v in which aggregates stored by value (structs, arrays) are fresh.
+func copyVal(v value) value {
+	switch v := v.(type) {
+	case structure:
+		a := make(structure, len(v))
+		for i := range v {
+			a[i] = copyVal(v[i])
+		}
+		return a
+	case array:
+		a := make(array, len(v))
+		for i := range v {
+			a[i] = copyVal(v[i])
+		}
+		return a
+	case iface:
+		// the dynamic value of an interface is immutable; aggregates inside are copied on extraction
+		return v
+	}
+	return v
 }
